@@ -22,6 +22,10 @@ type C08Scenario struct {
 	Root      string         `json:"root"`
 	Target    string         `json:"target"`
 	Schedules []sim.Schedule `json:"schedules"` // compared with the canonical schedule
+	// option variety (swarm): filters and switches the CLI accepts
+	ArchFilter string `json:"arch_filter,omitempty"` // -x for arch
+	BsIgnore   string `json:"bs_ignore,omitempty"`   // -x for bs
+	ApiPrefix  string `json:"api_prefix,omitempty"`  // -a for api
 }
 
 type C08 struct{}
@@ -39,7 +43,7 @@ func (C08) Budget(tier string) (int, time.Duration) {
 
 func (C08) Generate(t *tape.Tape, tier string) interface{} {
 	thorough := tier == "thorough"
-	o := gen.Options{MinFiles: 3, MaxFiles: 6, Controllers: true, Interfaces: true, Overloads: true, Lambdas: true, Anonymous: t.Bool(1, 2), BigBodies: t.Bool(1, 2), CollidingPkgs: t.Bool(2, 3)}
+	o := gen.Options{MinFiles: 3, MaxFiles: 6, Controllers: true, Interfaces: true, Overloads: true, Lambdas: true, Anonymous: t.Bool(1, 2), BigBodies: t.Bool(1, 2), CollidingPkgs: t.Bool(2, 3), TwinNames: true}
 	if thorough {
 		o.MaxFiles = 9
 	}
@@ -63,6 +67,27 @@ func (C08) Generate(t *tape.Tape, tier string) interface{} {
 		sc.Root = methods[t.Pick(len(methods))]
 		sc.Target = methods[t.Pick(len(methods))]
 	}
+	// option variety
+	var simpleNames []string
+	for _, f := range p.Files {
+		simpleNames = append(simpleNames, f.Name)
+	}
+	switch t.Pick(4) {
+	case 0:
+		sc.ArchFilter = simpleNames[t.Pick(len(simpleNames))]
+	case 1:
+		sc.ArchFilter = simpleNames[t.Pick(len(simpleNames))] + "," + simpleNames[t.Pick(len(simpleNames))]
+	case 2:
+		sc.ArchFilter = pkgs[t.Pick(len(pkgs))]
+	default:
+		sc.ArchFilter = simpleNames[t.Pick(len(simpleNames))][:2]
+	}
+	if t.Bool(1, 2) {
+		sc.BsIgnore = []string{"dataClass", "lazyElement,longMethod", "refusedBequest", "graphConnectedCall"}[t.Pick(4)]
+	}
+	if t.Bool(1, 2) {
+		sc.ApiPrefix = "/" + strings.ToLower(simpleNames[t.Pick(len(simpleNames))])[:1]
+	}
 	sc.GitLog = gen.GenGitLog(t)
 	sc.Tree = gen.GenClocTree(t)
 	k := 4
@@ -71,7 +96,11 @@ func (C08) Generate(t *tape.Tape, tier string) interface{} {
 	}
 	for i := 0; i < k; i++ {
 		s := sim.Schedule{Seed: t.Seed64()}
-		switch t.Pick(8) {
+		kind := t.Pick(8)
+		if i < 2 {
+			kind = 0 // at least two schedules shuffle every iteration event
+		}
+		switch kind {
 		case 0, 1, 2:
 			s.Tail = "seeded"
 		case 3:
@@ -339,6 +368,31 @@ func canonEvaluate(raw []byte) (string, error) {
 	return string(b), nil
 }
 
+// canonVisual: nodes and links of the visual graph as sets (ids resolved to names).
+func canonVisual(raw []byte) (string, error) {
+	var v map[string][]map[string]interface{}
+	if err := json.Unmarshal(raw, &v); err != nil {
+		return "", err
+	}
+	var out []string
+	var ks []string
+	for k := range v {
+		ks = append(ks, k)
+	}
+	sort.Strings(ks)
+	for _, k := range ks {
+		var rows []string
+		for _, e := range v[k] {
+			b, _ := json.Marshal(e)
+			rows = append(rows, string(b))
+		}
+		sort.Strings(rows)
+		out = append(out, k+":")
+		out = append(out, rows...)
+	}
+	return strings.Join(out, "\n"), nil
+}
+
 func canonGit(raw []byte) (map[string]string, error) {
 	var g struct {
 		Commits []struct {
@@ -418,18 +472,27 @@ func (C08) Run(ctx *sim.RunCtx, data json.RawMessage) (*sim.Outcome, error) {
 	out.ContentHash = hashJSON(sc)
 	cmds := []c08cmd{
 		{"analysis", []string{"analysis", "-p", "src"}, []string{"deps.json", "identify.json"}},
+		// second analysis with the stored identifier set ("use local identify"): the full pass then
+		// resolves project types through the identifier map; the reports below use this model
+		{"analysis-local", []string{"analysis", "-p", "src", "-i=false"}, []string{"deps.json"}},
 		{"call", []string{"call", "-c", sc.Root}, []string{"call.dot"}},
 		{"call-lookup", []string{"call", "-c", sc.Root, "-l"}, []string{"call.dot"}},
 		{"rcall", []string{"rcall", "-c", sc.Target}, []string{"rcall.dot", "rcallmap.json"}},
 		{"arch", []string{"arch"}, []string{"arch.dot"}},
 		{"arch-H", []string{"arch", "-H"}, []string{"arch.dot"}},
 		{"arch-P", []string{"arch", "-P"}, []string{"arch.dot"}},
+		{"arch-x", []string{"arch", "-x", sc.ArchFilter}, []string{"arch.dot"}},
+		{"arch-H-x", []string{"arch", "-H", "-x", sc.ArchFilter}, []string{"arch.dot"}},
+		{"arch-P-x", []string{"arch", "-P", "-x", sc.ArchFilter}, []string{"arch.dot"}},
+		{"arch-v", []string{"arch", "-v"}, []string{"visual.json"}},
 		{"bs", []string{"bs", "-p", "src"}, []string{"bs.json"}},
 		{"bs-sort", []string{"bs", "-p", "src", "-s", "type"}, []string{"bs.json"}},
+		{"bs-ignore", []string{"bs", "-p", "src", "-x", sc.BsIgnore}, []string{"bs.json"}},
 		{"tbs", []string{"tbs", "-p", "src"}, []string{"tbs.json"}},
 		{"tbs-sort", []string{"tbs", "-p", "src", "-s"}, []string{"tbs.json"}},
 		{"api", []string{"api", "-p", "src", "-f"}, []string{"apis.json", "api.dot", "api.csv"}},
 		{"api-sort", []string{"api", "-p", "src", "-f", "-s", "-c"}, []string{"api.csv"}},
+		{"api-aggregate", []string{"api", "-p", "src", "-f", "-a", sc.ApiPrefix}, []string{"api.dot", "api.csv"}},
 		{"count", []string{"count"}, nil},
 		{"evaluate", []string{"evaluate"}, []string{"evaluate.json"}},
 		{"concept", []string{"concept"}, nil},
@@ -521,6 +584,8 @@ func (C08) Run(ctx *sim.RunCtx, data json.RawMessage) (*sim.Outcome, error) {
 					cv, cerr = canonMapOfLists(b)
 				case fn == "bs.json" || fn == "tbs.json" || fn == "apis.json":
 					cv, cerr = sortedJSONList(b)
+				case fn == "visual.json":
+					cv, cerr = canonVisual(b)
 				case fn == "api.csv":
 					cv = canonCsv(string(b), c.name == "api-sort")
 				case fn == "cloc.csv":
@@ -544,6 +609,34 @@ func (C08) Run(ctx *sim.RunCtx, data json.RawMessage) (*sim.Outcome, error) {
 			switch c.name {
 			case "count", "concept", "evaluate":
 				arte[c.name+".table"] = r.Output
+			}
+		}
+		// library-style analysis: identifier pass, then the full pass with the project-wide identifier set
+		{
+			res, err := ctx.Run(&sim.Proc{Schedule: s, Cwd: w, Ops: []sim.Op{{Op: "identDir", Args: map[string]interface{}{"dir": "src"}}}})
+			if err != nil {
+				return nil, err
+			}
+			nonCanon += res.NonCanon
+			if res.Completed(0) && res.Records[0].OK {
+				identFile := filepath.Join(w, "lib-ident.json")
+				os.WriteFile(identFile, res.Records[0].Result, 0644)
+				res2, err := ctx.Run(&sim.Proc{Schedule: s, Cwd: w, Ops: []sim.Op{{Op: "fullDir", Args: map[string]interface{}{"dir": "src", "ident": identFile}}}})
+				if err != nil {
+					return nil, err
+				}
+				nonCanon += res2.NonCanon
+				if res2.Completed(0) && res2.Records[0].OK {
+					cv, cerr := canonModel(res2.Records[0].Result)
+					if cerr != nil {
+						return nil, fail("lib.full", cerr)
+					}
+					arte["lib.full-model"] = cv
+				} else {
+					arte["lib.full-model"] = "failed"
+				}
+			} else {
+				arte["lib.full-model"] = "ident failed"
 			}
 		}
 		// git reports (API level)
